@@ -30,7 +30,10 @@ func logoutScenario(redirect bool) *logoutRun {
 	r.lr.Consent = ""
 	r.lr.Status.StatusMessage = nil
 	r.lr.Status.StatusDetail = nil
-	r.lr.Status.StatusCode.StatusCode = nil
+	// a second-level status code may be present (its own nesting is cut)
+	if sc := r.lr.Status.StatusCode.StatusCode; sc != nil {
+		sc.StatusCode = nil
+	}
 	if r.lr.Issuer != nil {
 		r.lr.Issuer.NameQualifier, r.lr.Issuer.SPNameQualifier, r.lr.Issuer.Format, r.lr.Issuer.SPProvidedID = "", "", "", ""
 	}
